@@ -44,6 +44,21 @@ known("C02", "match-subject-tuple-range-ignores-element-parens-and-trailing-comm
 for prop in ("C03", "C09"):
     known(prop, "eof-error-offset-not-translated-for-token-less-input", "an input without any token (empty, blank or comment-only) parsed with a start offset k > 0 reports its end-of-input error at offset 0 instead of inside [k, k+len] (the start-marker token carries a default range)", "parse_starts_at('', Mode::Expression, 400)")
 
+# ---------------------------------------------------------------- repaired defects (status fixed: suppress nothing)
+def fixed(prop, id, commit, what, witness):
+    F.append({"property": prop, "id": id, "status": "fixed", "commit": commit,
+              "description": what, "witness": witness,
+              "line": "fixed: property=%s %s %s" % (prop, commit, what)})
+
+
+fixed("C14", "unlisted:round-trip-changes-signature", "fbd63e9", "Arguments -> PythonArguments -> Arguments lost keyword-only parameters without defaults / moved defaults (into_arguments padded with the length of an empty vector)", "def f(*, d, e=1): pass")
+fixed("C14", "unlisted:python-form-kwonly-not-ordered-as-documented", "fbd63e9", "to_/into_python_arguments did not list keyword-only parameters without defaults first", "def f(*, a=1, b): pass")
+fixed("C19", "unlisted:panic", "f0d132d", "CFormatSpec::format_bytes underflowed `width - len` when the width is smaller than the data", "b'%2s' % b'hello'")
+fixed("C17", "unlisted:to_string-not-round-tripping", "3a69894", "float::to_string(0.9999999999999999) rendered '1.0' (is_integer used an EPSILON comparison)", "0.9999999999999999")
+fixed("C11", "unlisted:tree-differs-after-round-trip", "3a69894", "the float constant 0.9999999999999999 was unparsed as 1.0", "0.9999999999999999")
+fixed("C12", "unlisted:optimizer-output-differs-from-reference-rewrite", "c23d8c7", "ConstantOptimizer folded store/del-context tuples such as `() = x` into a Constant", "() = x")
+fixed("C18", "unlisted:string-precision", "5b84adc", "format_string truncated after padding and by bytes (wrong text; panic inside a multi-byte character)", "format('é', '1.1')")
+
 # further per-property tables are appended by findings_*.py fragments (one per check family)
 if __name__ == "__main__":
     import os
